@@ -337,6 +337,7 @@ pub fn drive_c08(a: &Args, out: &mut Out) {
             cmp("drop4", "nofinish_forward", "replace", "replace_nofinish");
             cmp("drop4", "nofinish_forward", "replace_nr", "replace_nofinish_nr");
             cmp("same", "mutref_forward", "none", "mutref");
+            cmp("same", "mutref_forward", "replace", "replace_ref");
             cmp("expand", "default_replace", "replace", "replace_nr");
             cmp("expand", "default_replace", "compact_replace", "compact_replace_nr");
         }
